@@ -13,9 +13,8 @@ Proof.
   intros s o Hinv HS. unfold exec.
   destruct (i_ports s Hinv) as [P1 _].
   assert (MV : forall w np nn, sinks_exact (fst (move s w np nn))).
-  { intros. destruct (move s w np nn) as [s' out] eqn:E. apply move_cases in E.
-    destruct E as [[E _]|[_ [_ E]]]; cbn [fst]; [subst; exact HS|].
-    cbn in E. destruct E as [_ [_ [_ E]]]. subst s'. exact HS. }
+  { intros w np nn x Hx. destruct (move_frame s w np nn) as [_ [E2 [E3 [_ [_ [E6 [E7 [E8 [E9 E10]]]]]]]]].
+    rewrite E2 in Hx. rewrite E6, E3, (HS x Hx). apply filter_seq_ext. intros q Hq. unfold reader_b. now rewrite E7, E8, E9, E10. }
   assert (AP : forall k o0 n w0, sinks_exact (fst (add_port s k o0 n w0))).
   { intros k o0 n w0. unfold add_port.
     destruct (negb _); [exact HS|]. destruct (_ && _ && _); [exact HS|].
